@@ -38,6 +38,18 @@ GLOBAL_ASSUMPTIONS = [
 ]
 
 
+# properties whose check deliberately claims less than a full proof of the statement
+LEVEL_OVERRIDE = {
+    'C16': ('other', 'Proof of the FOOTPRINT PREMISE only (every store of every function under contract lies inside its assigns clause = memory reachable '
+                     'from its parameters; every static-lifetime object is const). The step from disjoint footprints to data-race freedom under every '
+                     'schedule is the standard non-interference argument and is NOT mechanised; no schedule is explored.'),
+    'C18': ('other', 'Proof for the ACF-CAN listener receive path only (acf-can-listener.c:new_packet: arbitrary datagram 0..1500 bytes, arbitrary recv result, '
+                     'UDP/raw x TSCF/NTSCF x classic/FD symbolic; memory safety, termination via loop variant, returns >= 0). NOT covered: the CVF, AAF, '
+                     'hello-world (GPC), ACF-VSS and CRF listeners; printf("%s") on unterminated packet bytes (invisible to CBMC\'s printf model); '
+                     'reads of stale in-bounds bytes beyond the received length; main() loops and socket set-up.'),
+}
+
+
 def load_known():
     p = os.path.join(VERIF, 'known_findings.json')
     if not os.path.exists(p):
@@ -237,6 +249,9 @@ def cmd_check(pid, tier, seed):
     wall = time.time() - t0
     is_bounded_mix = bool(bounded)
     level = 'other' if is_bounded_mix else 'proof'
+    override_txt = ''
+    if pid in LEVEL_OVERRIDE:
+        level, override_txt = LEVEL_OVERRIDE[pid]
     cov = {
         'obligations': obligations,
         'discharged': discharged,
@@ -260,7 +275,7 @@ def cmd_check(pid, tier, seed):
         'samples': samples,
         'known_findings_listed': [f.get('what') for _, f in knowns],
         'static_scan': scan_info,
-        'explanation': ('Contract-based deductive verification of the real C code with CBMC code contracts; '
+        'explanation': ((override_txt + ' ' if override_txt else '') + 'Contract-based deductive verification of the real C code with CBMC code contracts; '
                         'each named obligation = one function enforced against one contract with callees replaced by their contracts. '
                         + ('Some obligations are BOUNDED stand-ins (listed under bounded_stand_ins) and are not counted as proof.' if is_bounded_mix else
                            'All loops on the verified paths are closed by loop contracts; no unwinding bound is used.')),
